@@ -80,8 +80,8 @@ class IoModel:
         return ("?",)
 
     def on_drop(self, ex, st, v):
-        if isinstance(v, VStruct) and v.name == "NamedTempFile":
-            st.event("io", op="unlink", outcome="ok", path=("staging", v.fields[0].data), why="NamedTempFile drop")
+        if isinstance(v, VStruct) and v.name in ("NamedTempFile", "TempPath"):
+            st.event("io", op="unlink", outcome="ok", path=("staging", v.fields[0].data), why=v.name + " drop")
         elif isinstance(v, VStruct) and v.name == "BufWriter":
             pend = v.fields[1]
             if isinstance(pend, VVec) and pend.elems:
@@ -177,6 +177,8 @@ class IoModel:
         R("NamedTempFile::reopen", lambda ex, st, fr, c, a, d, r: m_open(
             io, ex, st, d, r, ("staging", deref_all(st, a[0]).fields[0].data), dict(write=True, reopen=True)))
         R(["NamedTempFile::as_file", "NamedTempFile::as_file_mut"], m_tmp_as_file)
+        # into_temp_path closes the handle and keeps the delete-on-drop obligation in the returned TempPath
+        R("NamedTempFile::into_temp_path", lambda ex, st, fr, c, a, d, r: VStruct("TempPath", [a[0].fields[0]]))
         R("NamedTempFile::path", lambda ex, st, fr, c, a, d, r: VRef(st.alloc(P("staging", deref_all(st, a[0]).fields[0].data))))
         R("Builder::new", lambda ex, st, fr, c, a, d, r: VOpaque("tmpbuilder", {"rand": True}))
         R(["Builder::prefix", "Builder::suffix", "Builder::permissions", "Builder::append", "Builder::disable_cleanup", "Builder::keep"],
